@@ -4,7 +4,7 @@
 Not a proof: a seeded sample of small files over Host/Match blocks (negation, several criteria, Match after a
 Hostname rewrite), keyword spellings (case, `=`, quotes), first-value-wins, `none`, accumulating options.
 Left out on purpose (asyncssh and ssh are known/expected to differ or need the network): Match exec / canonical /
-final / localnetwork, Include, trailing '#' comments, `none` for options that are not none-aware in OpenSSH.
+final / localnetwork, trailing '#' comments, `none` for options that are not none-aware in OpenSSH.
 """
 import json
 import os
@@ -81,6 +81,18 @@ def gen_config(rnd):
     return '\n'.join(lines) + '\n'
 
 
+def fixed_files(d):
+    return {
+        'inc_1.conf': 'HostKeyAlias al1\nHost nomatch\n  User alice\n',
+        'inc_2.conf': 'BindAddress 10.0.0.9\nHost nomatch\n  ConnectTimeout 5\n',
+        'inc_sub.conf': 'ServerAliveInterval 15\nHost nomatch\n  Port 99\n',
+        'fixed_include.conf': f'Include {d}/inc_?.conf\nPort 2222\nHost special\n  Include {d}/inc_sub.conf\n  '
+                              'ConnectTimeout 30\n',
+        'fixed_equals.conf': 'HostKeyAlias=a=b\nBindAddress = 10.0.0.1\nSetEnv A=1 B=2\nUser =bob\nPort= 2200\n'
+                             'SendEnv=X Y\nCompression= yes\n',
+    }
+
+
 ASYNCSSH_DRIVER = r'''
 import json, sys, socket
 from asyncssh.config import SSHClientConfig
@@ -109,6 +121,7 @@ def normalise_asyncssh(o, host, luser):
         n[k.lower()] = 'yes' if o.get(k, d) else 'no'
     n['proxyjump'] = o.get('ProxyJump')
     n['sendenv'] = list(o.get('SendEnv', []))
+    n['setenv'] = list(o.get('SetEnv', []))
     n['connecttimeout'] = str(o['ConnectTimeout']) if 'ConnectTimeout' in o else 'none'
     n['serveraliveinterval'] = str(o.get('ServerAliveInterval', 0))
     n['addressfamily'] = o.get('AddressFamily', 'any')
@@ -123,10 +136,10 @@ def normalise_asyncssh(o, host, luser):
 
 
 def normalise_ssh(text):
-    n = {'sendenv': [], 'identityfile': [], 'proxyjump': None, 'hostkeyalias': None, 'bindaddress': None}
+    n = {'sendenv': [], 'setenv': [], 'identityfile': [], 'proxyjump': None, 'hostkeyalias': None, 'bindaddress': None}
     for line in text.splitlines():
         k, _, v = line.partition(' ')
-        if k in ('sendenv', 'identityfile'):
+        if k in ('sendenv', 'setenv', 'identityfile'):
             n[k].append(v)
         elif k in ('hostname', 'user', 'port', 'compression', 'forwardagent', 'passwordauthentication', 'tcpkeepalive',
                    'proxyjump', 'connecttimeout', 'serveraliveinterval', 'addressfamily', 'hostkeyalias',
@@ -154,6 +167,15 @@ def run(n_files, seed, repo):
             texts[p] = text
             for host in rnd.sample(HOSTS, 2):
                 jobs.append([p, host, luser])
+        # hand-written files that are always part of the sample: Include (glob with two matches, read in place, a
+        # non-matching block at the end of an included file does not leak out) and the '=' forms of the tokenizer
+        for fname, text in fixed_files(d).items():
+            p = os.path.join(d, fname)
+            with open(p, 'w') as f:
+                f.write(text)
+            texts[p] = text
+            if not fname.startswith('inc_'):
+                jobs.append([p, 'special', luser])
         env = dict(os.environ, PYTHONPATH=repo)
         pr = subprocess.run(['/venv/bin/python', '-c', ASYNCSSH_DRIVER], input=json.dumps(jobs), capture_output=True,
                             text=True, env=env, cwd=d, timeout=300)
@@ -220,5 +242,68 @@ def run_fixed(repo):
                 ent['violations'].append({'config': text, 'host': host, 'asyncssh port': aport, 'ssh -G port': sport})
             out.append(ent)
         return out
+    finally:
+        shutil.rmtree(d, ignore_errors=True)
+
+
+# ---------------------------------------------------------------- file-level structure: several files, Include, reuse
+LOAD_DRIVER = r'''
+import json, sys
+from asyncssh.config import SSHClientConfig
+jobs = json.load(sys.stdin)
+out = []
+def load(last, paths):
+    return SSHClientConfig.load(last, paths, False, False, False, 'luser', 'ruser', 'myhost', 22)
+for job in jobs:
+    try:
+        if job['kind'] == 'chain':
+            c = load(load(None, job['first']), job['paths'])
+        else:
+            c = load(None, job['paths'])
+        out.append({'ok': {k: c.get(k) for k in job['keys']}})
+    except Exception as e:
+        out.append({'err': type(e).__name__ + ': ' + str(e)})
+json.dump(out, sys.stdout)
+'''
+
+EXPAND_ONCE = 'C18.bounded(each value is percent-expanded exactly once per load: several files, Include, previous config)'
+
+
+def run_expand_once(repo):
+    """A value must not depend on how many OTHER files are read after it: the options a file sets resolve to the
+    same values when a second (unrelated) file follows, when the file is reached through Include, and when a later
+    config is loaded on top of the resulting object.  Reference = the single-file result."""
+    d = tempfile.mkdtemp(prefix='c18once.')
+    try:
+        def w(name, text):
+            p = os.path.join(d, name)
+            with open(p, 'w') as f:
+                f.write(text)
+            return p
+        body = 'IdentityFile /k/%%h_%h\nCertificateFile /c/100%%\nRemoteCommand echo %%r %r\n'
+        keys = ['IdentityFile', 'CertificateFile', 'RemoteCommand']
+        a = w('a.conf', body)
+        b = w('b.conf', 'Port 2222\n')
+        main = w('main.conf', f'Include {a}\nPort 2222\n')
+        jobs = [{'kind': 'plain', 'paths': [a], 'keys': keys},
+                {'kind': 'plain', 'paths': [a, b], 'keys': keys},
+                {'kind': 'plain', 'paths': [main], 'keys': keys},
+                {'kind': 'chain', 'first': [a], 'paths': [b], 'keys': keys}]
+        labels = ['single file', 'config=[a, b]', 'Include a', 'b loaded on top of the config object of a']
+        pr = subprocess.run(['/venv/bin/python', '-c', LOAD_DRIVER], input=json.dumps(jobs), capture_output=True,
+                            text=True, env=dict(os.environ, PYTHONPATH=repo), cwd=d, timeout=60)
+        ent = {'name': EXPAND_ONCE, 'cases': 3, 'violations': [], 'skipped': None}
+        if pr.returncode != 0:
+            ent['skipped'] = 'driver failed: ' + pr.stderr[-300:]
+            return ent
+        res = json.loads(pr.stdout)
+        ref = res[0]
+        expect = {'IdentityFile': ['/k/%h_myhost'], 'CertificateFile': ['/c/100%'], 'RemoteCommand': 'echo %r ruser'}
+        if ref.get('ok') != expect:
+            ent['violations'].append({'file a': body, 'how': labels[0], 'documented expansion': expect, 'asyncssh': ref})
+        for lab, r in list(zip(labels, res))[1:]:
+            if r != ref:
+                ent['violations'].append({'file a': body, 'how': lab, 'single-file result': ref, 'asyncssh': r})
+        return ent
     finally:
         shutil.rmtree(d, ignore_errors=True)
